@@ -381,3 +381,15 @@ Proof.
   split; [|split; [reflexivity|split; [vm_compute; reflexivity|eexists; split; vm_compute; reflexivity]]].
   repeat constructor; cbn; intros H; repeat (destruct H as [H|H]; [discriminate|]); exact H.
 Qed.
+(* the hypothesis of C14_read_styles_last_block_wins (no OTHER block name coincides with c in lower case) and a repeated
+   class: the later block wins, the key keeps its first position; a list without equal neighbours (C14_grouping_no_runs_id) *)
+Example C14_example_read_styles :
+  let sheet := [(lit "ENCC", lit "en"); (lit "fr", lit "fr"); (lit "ENCC", lit "en-US")] in
+  (forall b, In b sheet -> lower (fst b) = lower (lit "ENCC") -> fst b = lit "ENCC")
+  /\ read_styles sheet = [(lit "encc", Some (lit "en-US")); (lit "fr", Some (lit "fr"))]
+  /\ resolve_class (lit "ENCC") sheet = Some (lit "en-US")
+  /\ spans_differ [(1, 2, [Some (lit "a")]); (1, 3, [Some (lit "b")]); (1, 2, [Some (lit "c")])] = true.
+Proof.
+  cbv zeta. split; [|vm_compute; repeat split].
+  intros b [<-|[<-|[<-|[]]]]; vm_compute; intros E; try reflexivity; discriminate.
+Qed.
